@@ -197,3 +197,136 @@ def run(ctx, proof):
     mism = campaign.run_cases(ctx, model_cases, [])
     campaign.report_mismatches(ctx, mism, [], "compute_bounds (impl) = compute (model) on knowledge sets visited along the lattice")
     ctx.coverage["edges_checked"] = evals
+    mulfactor_stage(ctx)
+
+
+# ---------------------------------------------------------------------------------------------------------------------
+# multiplicative factors (incomplete_cooperative/multiplicative/multiplicative_factor.py; model: theories/MulFactor.v)
+# ---------------------------------------------------------------------------------------------------------------------
+MF_RULE = ("multiplicative factors: positive superadditive int/dyadic games (closure game + |S|; 15% left unshifted so that a "
+           "zero lower bound makes the asserts fire), bounds computed by compute_bounds along a random reveal chain, plus raw "
+           "tables with arbitrary positive/zero bound columns; approximating game = lower bounds | (lower+v)/2 | random values. "
+           "A case (n, game, table, approximation) is distinct by that tuple and non-trivial when some result is a number > 1 "
+           "or an assert fires")
+
+
+def _mf_call(f, *args):
+    try:
+        return float(f(*args))
+    except AssertionError:
+        return "err"
+    except ValueError:
+        return "err"
+
+
+def mulfactor_stage(ctx):
+    from fractions import Fraction
+    from common import tokq, qtok, is_exact_float, run_driver
+    from incomplete_cooperative.multiplicative.multiplicative_factor import (
+        mul_factor_lower_upper_bound, mul_factor_to_approximation, mul_factor_to_lower_bound,
+        mul_factor_upper_to_approximation)
+    rng = ctx.rng
+    names = ["to_approximation", "upper_to_approximation", "to_lower_bound", "lower_upper_bound"]
+    lines, meta = [], []
+    tol = 1e-12
+
+    def one(n, v, g, full, positive, where, chain_state):
+        tab = bl.table_of(g)
+        mode = rng.choice(["lower", "mid", "random"])
+        if mode == "lower":
+            a = [Fraction(r[1]) for r in tab]
+        elif mode == "mid":
+            a = [(Fraction(r[1]) + Fraction(v[i])) / 2 for i, r in enumerate(tab)]
+        else:
+            a = [games.rand_value(rng, "dyadic") for _ in tab]
+        approx = bl.make_game("superadditive", n, a, list(range(2 ** n)))
+        res = [_mf_call(mul_factor_to_approximation, full, approx), _mf_call(mul_factor_upper_to_approximation, approx, g),
+               _mf_call(mul_factor_to_lower_bound, full, g), _mf_call(mul_factor_lower_upper_bound, g)]
+        ctx.evaluations += 1
+        for nm, r in zip(names, res):
+            ctx.count("mulfactor_" + nm, "err" if r == "err" else ("one" if r == 1.0 else "above_one"))
+        ctx.count("mulfactor_table", where)
+        key = ("mf", n, tuple(float(x) for x in v), tuple(tab), mode)
+        if any(r == "err" or r > 1.0 for r in res):
+            ctx.nontrivial.add(key)
+        lines.append(f"mf {n} " + " ".join(qtok(x) for x in v) + " " + " ".join(qtok(x) for x in a) + " " + bl.table_line(tab))
+        rep = {"n": n, "game": [float(x) for x in v], "approximation": [float(x) for x in a], "table": [list(r) for r in tab],
+               "where": where}
+        meta.append((rep, res))
+        # oracle on the implementation alone
+        if where == "computed":
+            tl, lu = res[2], res[3]
+            if positive and (tl == "err" or lu == "err"):
+                ctx.violation(f"multiplicative factor of computed bounds of a positive superadditive game raises: to_lower={tl}, "
+                              f"lower_upper={lu}", dict(rep, expected="1 <= to_lower <= lower_upper", observed=[tl, lu]))
+            elif tl != "err" and lu != "err" and not (1.0 - tol <= tl <= lu * (1 + tol)):
+                ctx.violation(f"multiplicative factors out of order: to_lower={tl}, lower_upper={lu} (expected 1 <= to_lower <= lower_upper)",
+                              dict(rep, expected="1 <= to_lower <= lower_upper", observed=[tl, lu]))
+            if chain_state.get("prev") is not None and lu != "err":
+                plu, ptl = chain_state["prev"]
+                if plu != "err" and lu > plu * (1 + tol):
+                    ctx.violation(f"mul_factor_lower_upper_bound increased along a reveal: {plu} -> {lu}",
+                                  dict(rep, reveals=list(chain_state["done"]), expected="non-increasing", observed=[plu, lu]))
+                if ptl != "err" and tl != "err" and tl > ptl * (1 + tol):
+                    ctx.violation(f"mul_factor_to_lower_bound increased along a reveal: {ptl} -> {tl}",
+                                  dict(rep, reveals=list(chain_state["done"]), expected="non-increasing", observed=[ptl, tl]))
+                if plu != "err" and lu < plu:
+                    ctx.nontrivial.add(("mf-strict", key))
+            chain_state["prev"] = (lu, tl)
+
+    ngames = 40 if ctx.quick else 200
+    for _ in range(ngames):
+        n = rng.choice([2, 3, 3, 4, 4] + ([5] if not ctx.quick or rng.random() < 0.3 else [3]))
+        kind = rng.choice(["int", "dyadic"])
+        v = games.sa_closure_game(rng, n, kind, neg_singletons=False)
+        positive = rng.random() < 0.85
+        if positive:
+            v = [x + games.popcount(s) for s, x in enumerate(v)]
+        comp = rng.choice(["superadditive", "superadditive_cached"])
+        ctx.count("mulfactor_n", n)
+        full = bl.make_game(comp, n, v, list(range(2 ** n)))
+        g = bl.make_game(comp, n, v, games.minimal_ids(n))
+        g.compute_bounds()
+        st = {"prev": None, "done": []}
+        one(n, v, g, full, positive, "computed", st)
+        opt = games.optional_ids(n)
+        for s_ in rng.sample(opt, min(len(opt), 6 if ctx.quick else 12)):
+            g.reveal_value(float(v[s_]), Coalition(s_))
+            g.compute_bounds()
+            st["done"].append(s_)
+            one(n, v, g, full, positive, "computed", st)
+        # raw tables: arbitrary bound columns (every row, coalition 1 included), never recomputed
+        for _ in range(2):
+            stale = {}
+            for i in range(1, 2 ** n):
+                l = games.rand_value(rng, "dyadic") if rng.random() < 0.97 else 0
+                h = l + games.rand_value(rng, "dyadic") if rng.random() < 0.97 else l - Fraction(1, 4)
+                stale[i] = (l, h)
+            graw = bl.make_game(comp, n, v, [0], stale)
+            one(n, v, graw, full, positive, "raw", {})
+    outs = run_driver(lines)
+    bad = 0
+    for (rep, res), out in zip(meta, outs):
+        toks = out.split()
+        ok = len(toks) == 4
+        for r, tk in zip(res, toks):
+            if tk == "err" or r == "err":
+                ok = ok and (tk == "err") == (r == "err")
+                continue
+            m = tokq(tk)
+            if is_exact_float(m):
+                ok = ok and Fraction(*float(r).as_integer_ratio()) == m
+            else:
+                ok = ok and abs(r - float(m)) <= 1e-9 * max(1.0, abs(float(m)))
+        if not ok:
+            bad += 1
+            if bad == 1 and not any(x["found_input"] for x in ctx.violations):
+                ctx.violation(f"correspondence 'multiplicative_factor.py = MulFactor.v mf_all' broke: impl {res} vs model {toks}",
+                              dict(rep, impl=res, model=toks), found_input=False)
+    ctx.coverage["mulfactor_cases_compared_with_model"] = len(meta)
+    ctx.coverage["mulfactor_mismatches"] = bad
+
+
+RULE = RULE + " | " + MF_RULE
+TRUSTED = TRUSTED + ["multiplicative factors: theories/MulFactor.v models a `Game` argument by its value vector (get_values()) and "
+                     "float division by exact rational division; tie = correspondence stage mulfactor_stage"]
